@@ -160,11 +160,12 @@ def render(items, indent=0, w=2):
             lines.append(f"{pad}{it[1]}")
             lines += render(it[2], indent + w, w)
         else:
+            nm = (it[3] + ".") if len(it) > 3 else ""   # compact form: the keywords carry a name, which prefixes the nodes inside
             for c, body in it[1]:
-                lines.append(f"{pad}@else" if c is None else f"{pad}@case {c[0]}")
+                lines.append(f"{pad}{nm}@else" if c is None else f"{pad}{nm}@case {c[0]}")
                 lines += render(body, indent + w, w)
             if it[2]:
-                lines.append(f"{pad}@end")
+                lines.append(f"{pad}{nm}@end")
     return lines
 
 
@@ -182,7 +183,7 @@ def walk(items, guard, prefix, defs):
             prev = []
             for c, body in it[1]:
                 g = list(guard) + [(l[0], l[1], l[2], not l[3]) for l in prev] + ([c[1]] if c is not None else [])
-                walk(body, g, prefix, defs)
+                walk(body, g, prefix + ((it[3] + ".") if len(it) > 3 else ""), defs)
                 if c is not None:
                     prev.append(c[1])
     return defs
@@ -244,6 +245,13 @@ HAND = [
     ("nested-three-deep-with-end", [("block", [((None, ("b", 0, None, True)), [("block", [((None, ("b", 1, None, True)), [("block", [((None, ("b", 2, None, True)), [("def", "a", 1)]), (None, [("def", "a", 2)])], True)]),
                                                                                           (None, [("def", "a", 3)])], True)]), ((None, ("i", 0, 2, True)), [("def", "a", 4)])], True), ("def", "b", ("v", 1))]),
     ("more-than-ten-clause-keywords", [("def", "a", 0)] + [x for k in range(6) for x in (("block", [((None, ("b", k % 4, None, True)), [("def", "bd"[k % 2], 10 + k)]), (None, [("def", "a", 20 + k)])], True),)] + [("def", "d", ("v", 0))]),
+    ("adjacent-named-blocks-are-different-blocks", [("def", "d", 0),
+                                                    ("block", [((None, ("b", 0, None, True)), [("def", "a", 10)]), ((None, ("b", 1, None, True)), [("def", "a", 11)]), (None, [("def", "a", 12)])], False, "p"),
+                                                    ("block", [((None, ("b", 2, None, True)), [("def", "b", 20)]), ((None, ("b", 3, None, True)), [("def", "b", 21)]), (None, [("def", "b", 22)])], False, "q"),
+                                                    ("def", "d", 99)]),
+    ("adjacent-named-blocks-inside-a-clause", [("block", [((None, ("i", 0, 1, True)), [("block", [((None, ("b", 0, None, True)), [("def", "a", 10)]), (None, [("def", "a", 12)])], False, "p"),
+                                                                                        ("block", [((None, ("b", 1, None, True)), [("def", "b", 20)]), (None, [("def", "b", 22)])], False, "q")]),
+                                                          (None, [("def", "a", 1)])], True), ("def", "d", 99)]),
     ("same-condition-twice", [("block", [((None, ("b", 0, None, True)), [("def", "a", 1)]), ((None, ("b", 0, None, True)), [("def", "a", 2)]), (None, [("def", "a", 3)])], True)]),
 ]
 
@@ -260,7 +268,7 @@ def _fix_conds(items):
                     txt = (f'("{{?c{l[1]}}}")' if l[3] else f'("~{{?c{l[1]}}}")') if l[0] == "b" else (f'("{{?v{l[1]}}} > {l[2]}")' if l[3] else f'("{{?v{l[1]}}} <= {l[2]}")')
                     c = (txt, l)
                 cl.append((c, _fix_conds(body)))
-            out.append(("block", cl, it[2]))
+            out.append(("block", cl, it[2]) + tuple(it[3:]))
         elif it[0] == "group":
             out.append(("group", it[1], _fix_conds(it[2])))
         else:
@@ -446,6 +454,9 @@ C16_TEXTS = [
     ("integer-options-in-another-unit-and-a-condition", 'x int = 2000 m\n  !options [2,3] km\n  !condition ("{?} >= 2500 m")', False, []),
     ("integer-options-in-another-unit-condition-holds", 'x int = 2000 m\n  !options [2,3] km\n  !condition ("{?} < 2500 m && {?} > 100")', True, [("x", 2000)]),
     ("integer-option-lines-in-another-unit-symbolic", 'x int = {?v0} m\n  = 2 km\n  = 3 km\n  !condition ("{?} < 2500 m")', ("eq", v0, 2000), [("x", v0)]),
+    ("array-bounds-of-the-definition-hold-for-a-typed-reassignment", "counts int[2] = [1,2]\ncounts int[:] = [1,2,3]", False, []),
+    ("array-bounds-of-the-definition-hold-for-an-untyped-reassignment", "counts int[2] = [1,2]\ncounts = [1,2,3]", False, []),
+    ("array-reassignment-within-the-bounds", "counts int[1:3] = [1,2]\ncounts int[:] = [4,5,6]\nm float[2,2] = [[1,2],[3,4]]\nm = [[5,6],[7,8]]", True, []),
     ("text-condition-not-equal", 'nm str = abc\n  !condition ("{?} != x")', True, [("nm", "abc")]),
     ("text-condition-not-equal-violated", 'nm str = abc\n  !condition ("{?} != abc")', False, []),
     ("text-condition-and-format", "nm str = abc\n  !condition (\"{?} != x\")\n  !format '[a-z]+'", True, [("nm", "abc")]),
@@ -491,6 +502,9 @@ C18_TEXTS = [
     ("untyped-modification-by-expression-in-another-unit", 'x float = 1 m\nx = ("50 cm + {?b}") cm\ny float = 2 km\ny float = ("{?a} * 3") m', False, [("x", ("/", ("+", 50, wb), 100)), ("y", ("/", ("*", wa, 3), 1000))], None),
     ("untyped-modification-by-expression", 'x float = 1 cm\nx = ("{?a} + {?b}")\nz bool = true\nz = ("{?f} && {?g}")', False, [("x", ("+", ("*", wa, 100), wb)), ("z", ("and", bf, bg))], None),
     ("result-requested-in-a-custom-unit", '$unit len = 2 m\nc float = ("{?a} + 1 m") [len]\nd float = ("3 [len] + {?b}") cm', False, [("c", ("/", ("+", wa, 1), 2)), ("d", ("+", 600, wb))], None),
+    ("dimensionless-left-operand", 'x float = ("0.5 + 25 %")\ny float = ("1 - 10 %") %\nz float = ("{?k} + 50 %")', False, [("x", 0.75), ("y", 90), ("z", ("+", wk, 0.5))], None),
+    ("number-plus-length-refused", 'x float = ("{?k} + {?a}") m', True, [], None),
+    ("number-minus-length-refused", 'x float = ("2 - 3 m") m', True, [], None),
     ("different-dimension-refused", 'x float = ("{?a} + {?k}") m', True, [], None),
     ("different-dimension-refused-2", 'x float = ("{?a} * {?b} - {?a}") m2', True, [], None),
     ("integer-nodes", 'x float = ("{?i} * {?j} + 1 cm") mm', False, [("x", ("+", ("*", vi, vj), 10))], None),
@@ -667,6 +681,10 @@ C14_TEXTS = [
     ("constant-refused-typed", "fixed float = 1 m", True, [], []),
     ("declared-without-value-refused", "d float cm", True, [], []),
     ("declared-then-assigned", "d float cm\nd = {?w0} mm", False, [("d", ("/", w0, 10))], [("d", "cm")]),
+    ("declared-boolean-without-value-refused", "fl bool", True, [], []),
+    ("declared-integer-without-value-refused", "k int", True, [], []),
+    ("declared-text-without-value-refused", "g\n  s str", True, [], []),
+    ("declared-boolean-then-assigned", "fl bool\nfl = {?f0}", False, [("fl", f0)], []),
     ("new-node-assigned-twice", "n float = {?w0} km\nn = {?w1} m", False, [("n", ("/", w1, 1000))], [("n", "km")]),
     ("function-after-expression-definition", 'n float = ("1 m + 1 m") m\nn = (fn_seven)', False, [("n", 7)], [("n", "m")]),
     ("expression-after-function-definition", 'n float = (fn_w0) m\nn = ("{?w1} * 2 m")', False, [("n", ("*", w1, 2))], [("n", "m")]),
@@ -804,6 +822,21 @@ b1 bool = false
 s1 str = bare-word_1
 ''', [("i1", "int", -42, None), ("i2", "int", 9007199254740993, None), ("f1", "float", 100.0, None), ("f2", "float", 0.5, "K"), ("f3", "float", -0.0025, None), ("f4", "float", 10.0, None),
       ("n1", "int", None, None), ("n2", "str", None, None), ("b1", "bool", False, None), ("s1", "str", "bare-word_1", None)]),
+    ("table-cells-in-every-notation", '''
+grp
+  out table = """
+a float
+b int m
+c bool
+d str
+
+.5 +7 true x
+5. 007 false "y z"
++2.5e1 -3 true w
+-0 0 false v
+"""
+after int = 1
+''', [("grp.out.a", "float", [0.5, 5.0, 25.0, -0.0], None), ("grp.out.b", "int", [7, 7, -3, 0], "m"), ("grp.out.c", "bool", [True, False, True, False], None), ("grp.out.d", "str", ["x", "y z", "w", "v"], None), ("after", "int", 1, None)]),
     ("table", '''
 out table = """
 snapshot int
@@ -894,3 +927,32 @@ def _(c):
     c.raises("ev(refused, S)", label="fails-exactly-when-stated")
     c.ensures("gstate(us, up, ut) == old(gstate(us, up, ut))", "process-wide-tables-as-before")
     c.on_raise("gstate(us, up, ut) == old(gstate(us, up, ut))", "process-wide-tables-as-before-when-parsing-fails")
+
+
+# ---- C19: the Rust export declares a multi-dimensional array with the innermost dimension innermost --------------------------------
+EXRS = "dip/config/export_rust.py::ExportConfigRust"
+
+
+@spec
+def rust_type(text, sym):
+    """declared type of  pub const SYM: <type> = ..."""
+    for l in text.split('\n'):
+        if l.startswith('pub const ' + sym + ': '):
+            return l[len('pub const ' + sym + ': '):l.index(' = ')]
+    return ''
+
+
+@contract(EXRS + ".parse", ["C19"], name="ExportConfigRust.parse[array-types]")
+def _(c):
+    c.bound = "one text with 2x3, 1x2, 2x3x1 and 1-D arrays of different element types"
+
+    def pre(b):
+        d0 = b.new(DIPC, name="t")
+        b.call(b.getattr(d0, "add_string"), 'grid.cells int16[2,3] = [[1,2,3],[4,5,6]]\nflags bool[1,2] = [[true,false]]\ncube uint64[2,3,1] = [[[1],[2],[3]],[[4],[5],[6]]]\nv float32[2] = [1.5,2.5]\nn int = 4')
+        env = b.call(b.getattr(d0, "parse"))
+        return dict(args=[b.new(EXRS, env)])
+    c.scenario("non-square-arrays", pre)
+    c.ensures("[rust_type(result, s) for s in ['GRID_CELLS', 'FLAGS', 'CUBE', 'V', 'N']] == ['[[i16; 3]; 2]', '[[bool; 2]; 1]', '[[[u64; 1]; 3]; 2]', '[f32; 2]', 'i32']",
+              "element-type-width-and-shape-with-the-last-index-innermost")
+    c.ensures("'= [[1, 2, 3], [4, 5, 6]];' in result and '= [[[1], [2], [3]], [[4], [5], [6]]];' in result", "elements-in-row-major-nesting")
+    c.no_raise()
